@@ -359,3 +359,44 @@ func VH_C18_two_pointers_preorder() {
 	vAssert(vWord(out, 2) == refListPtrWord(1, 2, 3), "C18.preorder.second-field-object-comes-second")
 	vAssert(out[24] == a && out[32] == b && out[34] == b, "C18.preorder.object-bytes")
 }
+
+// the canonical form does not depend on the padding bytes after a byte / 2-byte / 4-byte list in the
+// input (a message from another writer may leave anything there): they come out as zero
+func VH_C18_list_padding_ignored() {
+	_, seg := vNewMsg()
+	s, err := NewRootStruct(seg, ObjectSize{PointerCount: 1})
+	vAssume(err == nil)
+	kind := vConc(int(vNondetU8()), 3)
+	var l List
+	n := 0
+	switch kind {
+	case 0:
+		x, e := NewUInt8List(seg, 3)
+		l, err, n = x.List, e, 3
+	case 1:
+		x, e := NewUInt16List(seg, 1)
+		l, err, n = x.List, e, 2
+	default:
+		x, e := NewUInt32List(seg, 1)
+		l, err, n = x.List, e, 4
+	}
+	vAssume(err == nil)
+	v := vNondetBytes(8)
+	for j := 0; j < 8; j++ {
+		seg.data[int(l.off)+j] = v[j] // content AND padding of the list's only word
+	}
+	vAssume(s.SetPtr(0, l.ToPtr()) == nil)
+	out, err := Canonicalize(s)
+	vReach("returned")
+	vAssert(err == nil && len(out) == 24, "C18.padding.shape")
+	if err != nil || len(out) != 24 {
+		return
+	}
+	for j := 0; j < 8; j++ {
+		if j < n {
+			vAssert(out[16+j] == v[j], "C18.padding.content-kept")
+		} else {
+			vAssert(out[16+j] == 0, "C18.padding.padding-bytes-zeroed")
+		}
+	}
+}
